@@ -185,7 +185,9 @@ where
                 Poll::Pending => (),
             }
 
-            if server.is_some() {
+            // The next reply is only taken from the replier once the previous one has been routed,
+            // otherwise a reply that is waiting for a slow requestor would be overwritten.
+            if server.is_some() && buffered_rep.is_none() {
                 let st = &mut server.as_mut().as_pin_mut().unwrap().1;
 
                 match st.poll_next_unpin(cx) {
